@@ -269,6 +269,55 @@ func devEnumerate(s *devSeed, thorough bool, ofHeader bool, yield func(dev strin
 			}
 		}
 	}
+	// self-similar continuation: from the start of an element on, the frame consists of copies of
+	// that element's first 8, 16 or 24 bytes, each announcing 1, 2 or 4 times its own size (or 4 and
+	// 2 times alternately), up to 1 KiB and 4 KiB in all. Every copy is a header whose contents are
+	// more headers of the same kind: decoders that recurse or re-scan by announced lengths meet their
+	// worst case here (one deviation: the tail of the frame is replaced).
+	if ofHeader && n >= 16 {
+		seenStart := map[int]bool{}
+		for _, m := range st {
+			if m.Role != "length" || m.W != 2 || m.Off < 10 || !strings.Contains(m.Path, "ction") && !strings.Contains(m.Path, "nstr") && !strings.Contains(m.Path, "ucket") {
+				continue
+			}
+			start := m.Off - 2
+			if strings.Contains(m.Path, "ucket") {
+				start = m.Off // a bucket begins with its length
+			}
+			if seenStart[start] || start < 8 {
+				continue
+			}
+			seenStart[start] = true
+			for _, k := range []int{8, 16, 24} {
+				if start+k > n {
+					continue
+				}
+				for _, mode := range []string{"x1", "x2", "x4", "x4,x2"} {
+					for _, total := range []int{1024, 4096} {
+						if total <= start+k {
+							continue
+						}
+						c := make([]byte, 0, total)
+						c = append(c, b[:start]...)
+						for i := 0; len(c)+k <= total; i++ {
+							h := append([]byte{}, b[start:start+k]...)
+							mult := map[string]int{"x1": 1, "x2": 2, "x4": 4}[mode]
+							if mode == "x4,x2" {
+								mult = 4 - 2*(i%2)
+							}
+							if len(c)+5*k > total {
+								mult = 1 // the last four copies are leaves: they announce their own size
+							}
+							putBE(h, m.Off-start, 2, uint64(k*mult))
+							c = append(c, h...)
+						}
+						binary.BigEndian.PutUint16(c[2:], uint16(len(c)))
+						yield(fmt.Sprintf("%s@%d: tail replaced by copies of the element's first %d bytes announcing %s their size, %d bytes in all", m.Path, start, k, mode, len(c)), c)
+					}
+				}
+			}
+		}
+	}
 	if !ofHeader && n >= 1 {
 		// packets: the same header followed by filler up to an MTU, a jumbo frame, and the largest
 		// payload a packet-in can carry (16-bit size arithmetic in a decoder shows only here)
